@@ -8,7 +8,7 @@ import subprocess
 import tempfile
 from concurrent.futures import ThreadPoolExecutor
 
-from ..common import NPROC, PY, Verdict, child_env, digest, rng_for, seed, tier
+from ..common import NPROC, PY, Verdict, child_env, digest, rng_for, run_bounded, seed, tier
 
 PROP = "C19"
 N = {"quick": 400, "thorough": 8000}
@@ -140,12 +140,12 @@ def run_one(case, tmp):
     if case.get("reuse_after"):
         # one Cli object configured twice in one process: first with another preamble, then with this case's command line
         first = ["-m", "Model", case["fname"], "-f", case["reuse_after"]["fw"], f"--preamble={case['reuse_after']['preamble']}"]
-        r = subprocess.run([PY, "-c", REUSE, json.dumps([first, argv])], capture_output=True, cwd=d, env=env, timeout=300)
+        r = run_bounded([PY, "-c", REUSE, json.dumps([first, argv])], timeout=300, capture_output=True, cwd=d, env=env)
     else:
-        r = subprocess.run([PY, "-m", "json_to_models"] + argv, capture_output=True, cwd=d, env=env, timeout=300)
+        r = run_bounded([PY, "-m", "json_to_models"] + argv, timeout=300, capture_output=True, cwd=d, env=env)
     r0 = None
     if case["pkind"] in ("ws", "empty") or (case.get("reuse_after") and case["pkind"] == "none"):
-        r0 = subprocess.run([PY, "-m", "json_to_models"] + argv_of(case, with_preamble=False), capture_output=True, cwd=d, env=env, timeout=300)
+        r0 = run_bounded([PY, "-m", "json_to_models"] + argv_of(case, with_preamble=False), timeout=300, capture_output=True, cwd=d, env=env)
     return argv, r, r0
 
 
@@ -155,6 +155,8 @@ def judge(case, argv, r, r0):
     def W(mech, msg):
         wit.append({"property": PROP, "mechanism": mech, "msg": f"argv {argv!r}: {msg}"[:800]})
 
+    if getattr(r, "timed_out", False) or (r0 is not None and getattr(r0, "timed_out", False)):
+        return None, "case timeout"
     if r.returncode != 0:
         err = r.stderr.decode("utf-8", "replace").strip().split("\n")[-1]
         return None, f"CLI failed: {err[:200]}"
